@@ -252,11 +252,19 @@ func dumpLoadContinuationBody(sim *core.Sim, p *c17Params, cs *core.Case) {
 			alive = append(alive, la...)
 			all = append(all, la...)
 			consumed += n
-		case "rm":
+		case "rm", "rmhi":
 			if len(alive) == 0 {
 				continue
 			}
 			k := st.N % len(alive)
+			if st.K == "rmhi" {
+				// the alive entity with the highest id (the last slot of the pool, if it is alive)
+				for j := range alive {
+					if alive[j].ID() > alive[k].ID() {
+						k = j
+					}
+				}
+			}
 			h := alive[k]
 			alive = append(alive[:k], alive[k+1:]...)
 			if pn := core.Call(func() { A.RemoveEntity(h); L.RemoveEntity(h) }); pn != nil {
@@ -414,7 +422,7 @@ func TestC17(t *testing.T) {
 		Once: func(t *testing.T, st *core.Stats) {
 			t.Run("json", func(t *testing.T) { entityJSONRoundTrip(t, st) })
 		},
-		Rule: "the dump is a value (the loaded world's later life must not change it, and loading it a second time after the continuation reproduces the state at dump time); pre-history of single and batch creations, removals, RemoveEntities and Reset (any free-list shape) on a world of generated capacity increment; then DumpEntities, optionally through encoding/json, LoadEntities into a fresh or a used-and-reset world (entities still alive, or all removed, at the Reset) of another generated capacity increment; EntityDump.Alive equals the source's Query(All()) id order (as documented); then a generated continuation of NewEntity, NewBatchQ(n) and RemoveEntity (in a fifth of the cases preceded by Batch.RemoveEntities(All()) right after the load) applied to both worlds; oracle: Alive equal for every handle issued since the source's last reset and for all later ones after every continuation step, handles issued during the continuation identical in both worlds and never issued before, the loaded world's dump equals the source's (Entities, Next, Available, alive ids as a set) before and after the continuation, used count equal, loading into the non-empty source world panics and changes nothing; in a quarter of the cases the source world goes on (creations/removals) between the dump and the load, and the loaded world must equal one loaded from a deep copy taken at dump time; separately, Entity JSON round trips for arbitrary (id, generation); non-trivial = free list of length >= 2 at dump time and a continuation that creates more entities than the free list holds",
+		Rule: "the dump is a value (the loaded world's later life must not change it, and loading it a second time after the continuation reproduces the state at dump time); pre-history of single and batch creations, removals, RemoveEntities and Reset (any free-list shape) on a world of generated capacity increment; then DumpEntities, optionally through encoding/json, LoadEntities into a fresh or a used-and-reset world (entities still alive, or all removed, at the Reset) of another generated capacity increment; EntityDump.Alive equals the source's Query(All()) id order (as documented); then a generated continuation of NewEntity, NewBatchQ(n) and RemoveEntity applied to both worlds; oracle: Alive equal for every handle issued since the source's last reset and for all later ones after every continuation step, handles issued during the continuation identical in both worlds and never issued before, the loaded world's dump equals the source's (Entities, Next, Available, alive ids as a set) before and after the continuation, used count equal, loading into the non-empty source world panics and changes nothing; in a quarter of the cases the source world goes on (creations/removals) between the dump and the load, and the loaded world must equal one loaded from a deep copy taken at dump time; separately, Entity JSON round trips for arbitrary (id, generation); non-trivial = free list of length >= 2 at dump time and a continuation that creates more entities than the free list holds",
 		Finish: func(rt *rapid.T, sim *core.Sim, tr *tracker) {
 			p := &c17Params{
 				Cap:      rapid.SampledFrom([]int{1, 2, 3, 8, 128}).Draw(rt, "loadcap"),
@@ -422,10 +430,21 @@ func TestC17(t *testing.T) {
 				ViaJSON:  rapid.Bool().Draw(rt, "viajson"),
 				PreEmpty: rapid.Bool().Draw(rt, "preempty"),
 			}
-			p.RemoveAllFirst = rapid.IntRange(0, 4).Draw(rt, "removeallfirst") == 0
+			// (RemoveAllFirst is not generated any more: the order in which a bulk removal recycles ids is
+			// not specified, see DESIGN 8.3; replay files that carry it are still honoured)
+			if rapid.IntRange(0, 5).Draw(rt, "pad64") == 0 {
+				// the pool holds exactly 64*m ids at dump time (word boundary of the per-id bit sets)
+				for (len(sim.B.W.DumpEntities().Entities)-1)%64 != 0 && !sim.Done() {
+					sim.Apply(core.Op{K: core.OpNew, T: core.TNone})
+				}
+				if sim.Done() {
+					return
+				}
+				tr.cs.Label("pool padded to a multiple of 64 ids at dump time")
+			}
 			n := rapid.IntRange(0, 30).Draw(rt, "nh2")
 			for i := 0; i < n; i++ {
-				k := rapid.SampledFrom([]string{"new", "new", "new", "batch", "batch", "rm", "rm"}).Draw(rt, "h2k")
+				k := rapid.SampledFrom([]string{"new", "new", "new", "batch", "batch", "rm", "rm", "rmhi"}).Draw(rt, "h2k")
 				p.H2 = append(p.H2, c17Step{K: k, N: rapid.IntRange(0, 20).Draw(rt, "h2n")})
 			}
 			if rapid.IntRange(0, 3).Draw(rt, "delayed") == 0 {
